@@ -226,3 +226,39 @@ func TestVerifC13BatchCheckNullTupleKillsProcess(t *testing.T) {
 		t.Fatalf("DEFECT: a batch check with a null tuple killed the process:\n%s", tail)
 	}
 }
+
+// C02 (width): obligation (*Engine).checkExpandSubject$1/loop-step... truncated-expansion-is-not-a-denial.
+// More subject sets than max_read_width are silently cut off; the answer of the truncated
+// expansion is NotMember, which '!' turns into allowed. With the limit lowered the request
+// is allowed, with the default limit it is denied: the limit does not fail closed.
+func TestVerifC02WidthLimitTurnsDeniedIntoAllowed(t *testing.T) {
+	ctx := context.Background()
+	rels := []ast.Relation{{Name: "blocked"}, {Name: "m"}, {Name: "allow", SubjectSetRewrite: not(css("blocked"))}}
+	var tuples []string
+	for _, doc := range []string{"doc1", "doc2", "doc3"} {
+		for g := 1; g <= 12; g++ {
+			tuples = append(tuples, fmt.Sprintf("d:%s#blocked@(d:%s-g%d#m)", doc, doc, g))
+			tuples = append(tuples, fmt.Sprintf("d:%s-g%d#m@(d:%s-h%d#m)", doc, g, doc, g))
+		}
+		// mallory is blocked through exactly one of the twelve groups
+		tuples = append(tuples, fmt.Sprintf("d:%s-h7#m@mallory", doc))
+	}
+	d, e := vfSetup(t, rels, tuples)
+	for _, doc := range []string{"doc1", "doc2", "doc3"} {
+		q := tupleFromString(t, "d:"+doc+"#allow@mallory")
+		if err := d.Config(ctx).Set("limit.max_read_width", 100); err != nil {
+			t.Fatal(err)
+		}
+		wide := e.CheckRelationTuple(ctx, q, 0)
+		if wide.Err != nil || wide.Membership == checkgroup.IsMember {
+			t.Fatalf("setup: with width 100 mallory is blocked, so allow must be denied; got %+v", wide)
+		}
+		if err := d.Config(ctx).Set("limit.max_read_width", 2); err != nil {
+			t.Fatal(err)
+		}
+		narrow := e.CheckRelationTuple(ctx, q, 0)
+		if narrow.Err == nil && narrow.Membership == checkgroup.IsMember {
+			t.Fatalf("DEFECT: d:%s#allow@mallory is denied with max_read_width=100 and allowed with max_read_width=2 (the expansion of d:%s#blocked was cut to one of twelve subject sets and answered NotMember)", doc, doc)
+		}
+	}
+}
